@@ -470,6 +470,12 @@ class Result:
     applied: Optional[dict] = None
     apply_error: Optional[str] = None
     refresh_checks: list = dataclasses.field(default_factory=list)
+    # error bookkeeping: after every step of the session the identities of the error objects held by the
+    # validator itself (`top`), by the current manifest tree (`tree`) and by every history entry (`hist`);
+    # `final_ids` = dv.get_errors() after the session – what a user of the validator reads
+    report_obs: list = dataclasses.field(default_factory=list)
+    final_ids: list = dataclasses.field(default_factory=list)
+    final_has_errors: Optional[bool] = None
 
     def has_errors(self) -> bool:
         return bool(self.errors)
@@ -495,11 +501,28 @@ async def _session(app, case: Case, clock, res: Result, wall_limit: float):
                                 pool=ConcurrentWorkerPool(tpe))
         opts.log = log
         dv = DashValidator(url, adapter, mode=case.mode, options=opts)
+        keep: list = []          # keeps every error object alive, so that id() stays unique for the session
+        seen_top: set = set()
+
+        def observe(point: str) -> list:
+            top = list(dv.attrs.errors) + list(dv.elt.errors)
+            tree = list(dv.manifest.get_errors()) if dv.manifest is not None else []
+            hist = [list(h.errors) for h in dv.history]
+            keep.extend(top)
+            keep.extend(tree)
+            for h in hist:
+                keep.extend(h)
+            new_top = [e for e in top if id(e) not in seen_top]
+            seen_top.update(id(e) for e in top)
+            res.report_obs.append({"point": point, "top": [id(e) for e in top], "tree": [id(e) for e in tree],
+                                   "hist": [[id(e) for e in h] for h in hist]})
+            return [_err(e) for e in new_top]
         try:
             res.loaded = await dv.load()
             budget = MAX_LOOPS[case.mode]
             if res.loaded:
                 await dv.prefetch_media_info()
+            observe("load")
             while res.loaded and not dv.finished() and budget > 0:
                 if time.monotonic() - t0 > wall_limit:
                     res.timed_out = True
@@ -512,7 +535,7 @@ async def _session(app, case: Case, clock, res: Result, wall_limit: float):
                 adapter.pass_no = len(res.passes)
                 await dv.validate()
                 post = snap_manifest(dv)
-                top = _own_errors(dv)
+                top = observe("validate")        # the errors the validator itself gained in this pass
                 res.passes.append({"pre": pre, "post": post, "now": clock.now.isoformat(), "top_errors": top})
                 if prev_info is not None and dv.manifest is not None:
                     m = dv.manifest
@@ -528,14 +551,20 @@ async def _session(app, case: Case, clock, res: Result, wall_limit: float):
                     budget -= 1
                     res.loops += 1
                     await dv.sleep()
+                    observe("sleep")
                     adapter.pass_no = len(res.passes)
                     await dv.refresh()
+                    observe("refresh")
             res.finished = bool(res.loaded and dv.finished())
         except Exception as e:      # a crash of the validator is an observation, not a harness error
             import traceback
             res.crashed = f"{type(e).__name__}: {e} @ " + " < ".join(
                 f"{f.name}:{f.lineno}" for f in traceback.extract_tb(e.__traceback__)[-3:][::-1])
-        res.errors = [_err(e) for e in dv.get_errors()]
+        final = list(dv.get_errors())
+        keep.extend(final)
+        res.errors = [_err(e) for e in final]
+        res.final_ids = [id(e) for e in final]
+        res.final_has_errors = bool(dv.has_errors())
         res.top_errors = _own_errors(dv)
         if not res.passes and dv.manifest is not None:
             res.passes.append({"pre": snap_manifest(dv), "post": snap_manifest(dv),
